@@ -121,14 +121,24 @@ mod __verif_c41 {
 
     // @harness tiers=quick,thorough
     // @encodes metastore::gravitino::dechunk
-    // @bounds one chunk of 10, 12 or 15 bytes (concrete zero payload), size written as ONE hex digit in symbolic case (a/A, c/C, f/F)
+    // @bounds one chunk of 12 bytes (concrete zero payload), size written as ONE hex digit in symbolic case (c / C)
     // @oracle hex sizes decode in either case: the body has the declared length
     // @unwindset metastore::gravitino::dechunk:3 run_utf8_validation:3 is_whitespace:3 from_ascii_bytes_radix_impl:3 CharSearcher:3 memchr:4
     #[kani::proof]
     #[kani::unwind(18)]
-    fn hex_sizes_in_either_case() {
-        hex_case(10);
+    fn hex_size_in_either_case() {
         hex_case(12);
+    }
+
+    // @harness tiers=thorough timeout=2400
+    // @encodes metastore::gravitino::dechunk
+    // @bounds as hex_size_in_either_case for lengths 10 and 15 (a/A, f/F)
+    // @oracle as hex_size_in_either_case
+    // @unwindset metastore::gravitino::dechunk:3 run_utf8_validation:3 is_whitespace:3 from_ascii_bytes_radix_impl:3 CharSearcher:3 memchr:4
+    #[kani::proof]
+    #[kani::unwind(18)]
+    fn hex_sizes_other_digits() {
+        hex_case(10);
         hex_case(15);
     }
 
